@@ -73,7 +73,7 @@ def run(ctx):
     classes = ['bytes', 'u8', 'i16', 'i32', 'float']
     ntests = 0
     configs = [('FALSE', 1, '2'), ('TRUE', 1, '3'), ('FALSE', 2, '2')] if ctx.quick else \
-              [('FALSE', 1, '3'), ('TRUE', 1, '3'), ('FALSE', 2, '3'), ('TRUE', 2, '2')]
+              [('FALSE', 1, '3'), ('TRUE', 1, '3'), ('FALSE', 2, '2'), ('TRUE', 2, '2')]
     for dup, ncols, maxrows in configs:
         r, states = ctx.tlc_dump('MC_LisTable_%s_%d' % (dup, ncols), 'LisTable',
                                  consts={'RowNames': frozenset(['R1', 'R2']), 'Classes': frozenset(classes if ncols == 1 else ['bytes', 'i16', 'float'])},
